@@ -155,7 +155,7 @@ pub fn check_forms(ll_opt: Option<&LongLived>, s: &str, st: &mut Stats) {
 
 // ---- (b) histories -------------------------------------------------------
 
-pub const INPUTS: [&str; 7] = [
+pub const INPUTS: [&str; 10] = [
     "abc",                       // unchanged on every path
     "Abc",                       // changed at index 0 (case-mapped), unchanged elsewhere
     "\u{e9}\u{3000}\u{ff22}",    // changed after a multi-byte prefix (space / width)
@@ -163,6 +163,9 @@ pub const INPUTS: [&str; 7] = [
     "a\u{9}",                    // rejected
     "\u{5d0}1",                  // right-to-left, valid
     "\u{5d0}a",                  // right-to-left, rejected by the directionality rule
+    "\u{e9}",                    // plain non-ASCII letter
+    "\u{aa}",                    // HasCompat: the two string classes disagree about it
+    "a\u{ff22}\u{ff76}",         // width-mapped characters from the middle of the table
 ];
 
 #[derive(Copy, Clone, Debug, PartialEq, Eq)]
@@ -437,7 +440,7 @@ pub fn run(_env: &Env, run: &Run) -> (Stats, Coverage) {
     st.sample(json!({"forms": "UsernameCaseMapped::enforce(\"Abc\") via static/new()/default()/long-lived x &str/String/&String/Cow::Borrowed/Cow::Owned", "expected": "all Ok(\"abc\")"}));
     st.sample(json!({"history": ["Nickname.enforce(U+00A8 a)", "UsernameCaseMapped.compare(Abc, ABC)", "Nickname.enforce(U+00A8 a)"], "expected": "each result equals the result of the same call made first in a fresh process"}));
     let cov = Coverage {
-        rule: format!("(a) every string of length <= {} over 16 symbols x 4 profiles x {{prepare, enforce}} x 12 (entry point, argument form) pairs and compare x 8 forms: all equal; (b) every call history of length <= {} over an alphabet of {} calls (4 profiles x 3 ops x 7 inputs hitting every fast and slow path) executed on the process-wide statics and on one long-lived instance per profile, every result compared with the result of that call as the FIRST library call of a fresh process ({} child processes); (c) every interleaving of 2-3 threads over the lazy-singleton points, see 'schedules'; (d) inventory of shared-state constructs in the three crates; non-trivial = histories mixing different calls", n, depth, alpha.len(), alpha.len()),
+        rule: format!("(a) every string of length <= {} over 16 symbols x 4 profiles x {{prepare, enforce}} x 12 (entry point, argument form) pairs and compare x 8 forms: all equal; (b) every call history of length <= {} over an alphabet of {} calls (4 profiles x 3 ops x 10 inputs hitting every fast and slow path) executed on the process-wide statics and on one long-lived instance per profile, every result compared with the result of that call as the FIRST library call of a fresh process ({} child processes); (c) every interleaving of 2-3 threads over the lazy-singleton points, see 'schedules'; (d) inventory of shared-state constructs in the three crates; non-trivial = histories mixing different calls", n, depth, alpha.len(), alpha.len()),
         alphabet: json!({"symbols": sigma.iter().map(|c| format!("U+{:04X}", *c as u32)).collect::<Vec<_>>(), "history_inputs": INPUTS.iter().map(|s| show(s)).collect::<Vec<_>>()}),
         bound_completed: format!("forms: {} strings; histories: depth {}", tree_size(sigma.len(), n), depth),
         exhaustive: false,
